@@ -100,6 +100,9 @@ def expected(rq, i):
     method = rq["method"]
     if rq["target"] in ("unknown-path", "no-site"):
         return (132, None, False)
+    if method > 7:
+        # a code of the request class that no method is assigned to: nothing implements it
+        return (133, None, False)
     if rq["target"] == "missing-method" and method != 1:
         return (133, None, False)
     o = rq["outcome"]
@@ -240,7 +243,7 @@ def _case(draw):
             "t": draw(st.sampled_from([0.0, 0.0, 0.001, 0.05, 0.2, 0.31, 2.0])),
             "peer": draw(st.integers(0, 1)),
             "con": draw(st.booleans()),
-            "method": draw(st.integers(1, 7)),
+            "method": draw(st.one_of(st.integers(1, 7), st.integers(1, 7), st.integers(1, 7), st.sampled_from([8, 9, 20, 31]))),
             "target": "no-site" if no_site else draw(st.sampled_from(["resource"] * 6 + ["unknown-path", "missing-method"])),
             "outcome": draw(_outcome),
             "delay": draw(st.sampled_from([0, 0, 0.05, 0.3])),
@@ -272,7 +275,7 @@ def selftest():
 
 
 RULE = (
-    "1-4 requests (all 7 methods, CON/NON, two raw peers, 0-2 s apart so that they overlap) to a real aiocoap server context whose per-request resource has a generated outcome: "
+    "1-4 requests (all 7 methods and unassigned request codes 0.08, 0.09, 0.20, 0.31, CON/NON, two raw peers, 0-2 s apart so that they overlap) to a real aiocoap server context whose per-request resource has a generated outcome: "
     "message with one of 8 codes / message without code / each of the 21 ConstructionRenderableError subclasses with a marker text / custom RenderableError whose to_message works, "
     "raises or returns None / 9 builtin exception types carrying a marker / return None, str, int, bytes, tuple; each optionally after 50 or 300 ms (after the empty ACK); also unknown "
     "paths, a resource lacking the method, a context without site, No-Response values. Oracle per request token on the wire: exactly one non-empty response (retransmissions of one MID "
